@@ -5,6 +5,8 @@ import copy
 import json
 import math
 
+from translator import c03 as tr
+
 from .. import core
 from ..core import Broken, Ctx, Violation
 
@@ -16,15 +18,20 @@ BUCKETS = ["photon", "charge", "pixel", "signal", "image"]
 CB = dict(photon="Photon", charge="Charge", pixel="Pixel", signal="Signal", image="Image")
 CDT = dict(uint8="U8", uint16="U16", uint32="U32", uint64="U64", float16="F16", float32="F32", float64="F64")
 UMAX = dict(uint8=2 ** 8, uint16=2 ** 16, uint32=2 ** 32, uint64=2 ** 53)
+CMODE = dict(assign="WAssign", iadd="WIAdd", iset="WISet")
 SENTINEL = -777777
 CLAUSES = {1: "run_raised", 2: "slices_differ_from_snapshots", 3: "node_paths", 4: "scene_data_passthrough",
            5: "debug_changes_result", 6: "debug_nodes"}
 
 TRUSTED = [
+    "translator/c03.py (python ast -> Gen_C03.src_tables / src_shape: exported and captured containers, time label, which "
+    "to_xarray copies, dims / coordinate origins / dtype conversion, concatenation and dtype restoration in run_pipeline, keys "
+    "of the final tree, debug reference; fails closed on any other shape)",
     "correspondence harness: harness/props/c03.py generators and literal emitters, harness/drivers/c03.py "
     "(canonical form of the returned DataTree), probes/verif_probes_c03.py (writer models, the last-running recorder)",
-    "modelled, not verified: xarray merge/expand_dims/DataTree (outer join = sorted union of the time labels, NaN fill "
-    "promotes uint8/16 to float32 and uint32/64 to float64, astype back), numpy casts, np.allclose on exact small integers",
+    "modelled, not verified: xarray concat/expand_dims/DataTree (concatenation along time appends the slice of the step and "
+    "keeps integer dtypes; astype to the dtype of the current image), numpy casts and in-place arithmetic, np.allclose on "
+    "exact small integers, which numpy/xarray operations copy a buffer (np.array, astype, .copy) and which do not",
     "time labels on the 1/8 s grid (float64 start + t exact); array values are integers exactly representable in their dtype",
 ]
 
@@ -36,7 +43,76 @@ def last_model():
     return dict(group="data_processing", name="zz_last", actions=[dict(kind="last")])
 
 
+FLOAT_EXACT = dict(float16=2 ** 11, float32=2 ** 24, float64=2 ** 53)
+WIDER = dict(float16="float32", float32="float64", uint8="uint16", uint16="uint32", uint32="uint64")
+
+
+def simulate(c) -> list:
+    """What the writer probes do to the five containers, step by step (python twin of Model/Result.v
+    apply_write, used ONLY to keep generated values inside the exactly representable range of their dtype).
+    -> [(bucket, dtype of the buffer, largest value, action)] for every write of every step."""
+    n, nel = len(c["times"]), c["rows"] * c["cols"]
+    out = []
+    pixel = None
+    for i in range(n):
+        st = dict(photon=None, charge=["float64", 0], signal=None, image=None,
+                  pixel=pixel if (c["nondestr"] and pixel is not None) else ["float64", 0])
+        for m in c["models"]:
+            for a in m["actions"]:
+                if a.get("kind") != "write":
+                    continue
+                b, mode = a["bucket"], a.get("mode", "assign")
+                if a["per_step"][i] < 0:
+                    continue
+                k = nel * (a.get("waves") or 1) if b == "photon" else nel
+                top = a["per_step"][i] + k - 1
+                cur = st[b]
+                if b == "charge":
+                    st[b] = ["float64", top + (cur[1] if mode == "iadd" else 0)]
+                elif cur is None or mode == "assign":
+                    st[b] = [a["dtype"], top]
+                elif mode == "iadd":
+                    st[b] = [cur[0], cur[1] + top]
+                else:
+                    st[b] = [cur[0], top]
+                out.append((b, st[b][0], st[b][1], a))
+        pixel = st["pixel"]
+    return out
+
+
+def fit_dtypes(c) -> bool:
+    """Widen writer dtypes until every value the probes produce is exactly representable (and, under debug,
+    small enough for np.allclose on integers to be equality).  False: give the case up."""
+    for _ in range(8):
+        bad = None
+        for b, dt, top, a in simulate(c):
+            lim = UMAX[dt] if dt in UMAX else FLOAT_EXACT[dt]
+            if c["debug"]:
+                lim = min(lim, 90000)
+            if top >= lim:
+                bad = (b, dt)
+                break
+        if bad is None:
+            return True
+        b, dt = bad
+        if dt not in WIDER:
+            return False
+        for m in c["models"]:
+            for a in m["actions"]:
+                if a.get("kind") == "write" and a["bucket"] == b and a["dtype"] == dt:
+                    a["dtype"] = WIDER[dt]
+    return False
+
+
 def gen_case(r, force=None) -> dict:
+    for _ in range(50):
+        c = gen_case_once(r, force)
+        if fit_dtypes(c):
+            return c
+    raise RuntimeError("C03 generator: no representable case in 50 tries")
+
+
+def gen_case_once(r, force=None) -> dict:
     force = force or {}
     n = force.get("n", r.choice([1, 2, 2, 3, 3, 4, 5, 6]))
     start = force.get("start", r.choice([0, 0, 4, 8, 20]))
@@ -45,18 +121,20 @@ def gen_case(r, force=None) -> dict:
         t += r.choice([1, 2, 4, 8, 12])
         times.append(t)
     rows, cols = r.choice([1, 2, 3]), r.choice([1, 2, 3])
-    debug = force.get("debug", r.random() < 0.35)
+    debug = force.get("debug", r.random() < 0.4)
     buckets = force.get("buckets")
     if buckets is None:
         buckets = [b for b in BUCKETS if r.random() < 0.6] or [r.choice(BUCKETS)]
+    # follow-up writers of the same bucket later in the step: in place (+=, [...] =) or re-assigning
+    inplace = force.get("inplace", r.random() < 0.55)
     image_dt = r.choice(["uint8", "uint16", "uint32", "uint64"])
-    waves = r.choice([0, 0, 1, 2, 3])
+    waves = force.get("waves", r.choice([0, 0, 1, 2, 3]))
     nelem = rows * cols * 3
-    models, used = [], set()
+    image_small = debug or (inplace and "image" in buckets)
 
-    def per_step(dt, bucket):
+    def per_step(bucket):
         if bucket == "image":
-            if image_dt == "uint8" or debug:
+            if image_dt == "uint8" or image_small:
                 hi = 250 - nelem - 7 * n
                 base, stp = r.randrange(1, max(2, hi)), r.randrange(1, 8)
             else:
@@ -67,30 +145,63 @@ def gen_case(r, force=None) -> dict:
             base, stp = r.randrange(1, 120), r.randrange(1, 40)
         return [base + i * stp for i in range(n)]
 
-    def writer(bucket):
-        dt = image_dt if bucket == "image" else ("float64" if bucket == "charge" else r.choice(["float16", "float32", "float64"]))
+    def writer(bucket, mode):
+        if bucket == "image":
+            dt = image_dt
+        elif bucket == "charge":
+            dt = "float64"
+        elif bucket == "photon" and waves and r.random() < 0.5:
+            dt = "float64"          # Photon.to_xarray converts a cube to float64: the one dtype it could share
+        else:
+            dt = r.choice(["float16", "float32", "float64"])
         return dict(kind="write", bucket=bucket, dtype=dt, waves=waves if bucket == "photon" else 0,
-                    per_step=per_step(dt, bucket))
+                    mode=mode, idiom=r.randrange(3), per_step=per_step(bucket))
 
     order = list(buckets)
     if r.random() < 0.3:
         r.shuffle(order)
+    # (group index, action) in creation order; the writers of one bucket keep their order
+    acts = []
+    for b in order:
+        g = r.randrange(5)
+        first = "assign" if r.random() < 0.7 else r.choice(["iadd", "iset"])
+        if b == "charge" and first == "assign" and r.random() < 0.6:
+            first = "iadd"          # Charge.add_charge_array, what pyxel's models do
+        acts.append((g, writer(b, first)))
+        if inplace and r.random() < 0.65:
+            for _ in range(r.choice([1, 1, 2, 3])):
+                g = r.randrange(g, 5)
+                acts.append((g, writer(b, r.choice(["iadd", "iadd", "iadd", "iset", "assign"]))))
+    if r.random() < 0.5:
+        # interleave the buckets (several models between the writers of one bucket)
+        keyed = [(g, r.random(), j, a) for j, (g, a) in enumerate(acts)]
+        fixed = []
+        for g, rk, j, a in sorted(keyed, key=lambda x: (x[0], x[1])):
+            fixed.append((g, a))
+        # restore the relative order of the writers of each bucket
+        per_b = {}
+        for g, a in acts:
+            per_b.setdefault(a["bucket"], []).append(a)
+        acts = [(g, per_b[a["bucket"]].pop(0)) for g, a in fixed]
+    # a float bucket that is initialised in some steps only (a negative entry: the writer does nothing)
+    partial = [b for b in ("photon", "signal") if b in buckets]
+    if n >= 2 and partial and force.get("partial", r.random() < 0.2):
+        b = r.choice(partial)
+        skip = set(r.sample(range(n), r.randrange(1, n)))
+        for _, a in acts:
+            if a["bucket"] == b:
+                a["per_step"] = [-1 if i in skip else v for i, v in enumerate(a["per_step"])]
+    models = []
     k = 0
-    while k < len(order):
-        take = 2 if (r.random() < 0.2 and k + 1 < len(order)) else 1
-        acts = [writer(b) for b in order[k:k + take]]
+    while k < len(acts):
+        take = 2 if (r.random() < 0.15 and k + 1 < len(acts) and acts[k][0] == acts[k + 1][0]) else 1
+        models.append(dict(group=GROUP_ORDER[acts[k][0]], name=f"m{len(models)}", actions=[a for _, a in acts[k:k + take]]))
         k += take
-        g = r.choice(GROUP_ORDER[:5])
-        name = f"m{len(models)}"
-        models.append(dict(group=g, name=name, actions=acts))
-    if r.random() < 0.25 and buckets:
-        # a second model rewriting a bucket later in the pipeline
-        models.append(dict(group=r.choice(GROUP_ORDER[:5]), name=f"m{len(models)}", actions=[writer(r.choice(buckets))]))
     if force.get("data", r.random() < 0.3):
-        acts = [dict(kind="data", key="/probe/a", per_step=[r.randrange(1, 99) + i for i in range(n)])]
+        dacts = [dict(kind="data", key="/probe/a", per_step=[r.randrange(1, 99) + i for i in range(n)])]
         if r.random() < 0.5:
-            acts.append(dict(kind="data", key="/probe/b", per_step=[r.randrange(100, 199) + 2 * i for i in range(n)]))
-        models.append(dict(group=r.choice(GROUP_ORDER[:5]), name=f"m{len(models)}", actions=acts))
+            dacts.append(dict(kind="data", key="/probe/b", per_step=[r.randrange(100, 199) + 2 * i for i in range(n)]))
+        models.append(dict(group=r.choice(GROUP_ORDER[:5]), name=f"m{len(models)}", actions=dacts))
     if force.get("scene", r.random() < 0.2):
         models.append(dict(group="photon_collection", name=f"m{len(models)}",
                            actions=[dict(kind="scene", key=r.choice(["/list/0/flux", "/list/0/flux", "/flux"]),
@@ -106,7 +217,8 @@ def gen_case(r, force=None) -> dict:
 def fixed_cases() -> list:
     """Aimed cases, run first (corpus)."""
     L = last_model
-    w = lambda b, dt, ps, waves=0: dict(kind="write", bucket=b, dtype=dt, waves=waves, per_step=ps)  # noqa: E731
+    w = lambda b, dt, ps, waves=0, mode="assign", idiom=0: dict(  # noqa: E731
+        kind="write", bucket=b, dtype=dt, waves=waves, mode=mode, idiom=idiom, per_step=ps)
     cs = []
     # F11: pipelines that never write image, >= 2 readouts, both layouts, debug on/off
     for hier in (False, True):
@@ -121,12 +233,12 @@ def fixed_cases() -> list:
             cs.append(dict(rows=2, cols=3, start=0, times=[8 * (i + 1) for i in range(n)], nondestr=False,
                            hier=(n % 2 == 0), debug=False,
                            models=[dict(group="photon_collection", name="wp", actions=[w("photon", "float64", [1 + 9 * i for i in range(n)])]),
-                                   dict(group="charge_generation", name="wc", actions=[w("charge", "float64", [2 + 9 * i for i in range(n)])]),
+                                   dict(group="charge_generation", name="wc", actions=[w("charge", "float64", [2 + 9 * i for i in range(n)], mode="iadd")]),
                                    dict(group="charge_collection", name="wx", actions=[w("pixel", "float32", [3 + 9 * i for i in range(n)])]),
                                    dict(group="charge_measurement", name="ws", actions=[w("signal", "float16", [4 + 9 * i for i in range(n)])]),
                                    dict(group="readout_electronics", name="wi", actions=[w("image", dt, [big + 7 * i for i in range(n)])]),
                                    L()]))
-    # uint64 images above 2^53 (the float64 round trip of the merge)
+    # uint64 images above 2^53 (round 1: altered by the float64 round trip of xr.merge; exact since the steps are concatenated)
     cs.append(dict(rows=1, cols=1, start=0, times=[8, 16], nondestr=False, hier=False, debug=False,
                    models=[dict(group="readout_electronics", name="wi", actions=[w("image", "uint64", [2 ** 53 + 1, 7])]), L()]))
     cs.append(dict(rows=1, cols=1, start=0, times=[8], nondestr=False, hier=False, debug=False,
@@ -144,13 +256,69 @@ def fixed_cases() -> list:
                                                                              dict(kind="data", key="/probe/a", per_step=[21, 22])]), L()]))
     # debug: two in-place charge additions in one step (the first node must keep its own value)
     cs.append(dict(rows=1, cols=1, start=0, times=[8], nondestr=False, hier=False, debug=True,
-                   models=[dict(group="charge_generation", name="c1", actions=[w("charge", "float64", [5])]),
-                           dict(group="charge_generation", name="c2", actions=[w("charge", "float64", [100])]), L()]))
+                   models=[dict(group="charge_generation", name="c1", actions=[w("charge", "float64", [5], mode="iadd")]),
+                           dict(group="charge_generation", name="c2", actions=[w("charge", "float64", [100], mode="iadd")]), L()]))
     # a scene with a variable at its root node: run_pipeline forces the hierarchical layout
     cs.append(dict(rows=1, cols=2, start=0, times=[8, 16], nondestr=False, hier=False, debug=False,
                    models=[dict(group="photon_collection", name="sc", actions=[dict(kind="scene", key="/flux", per_step=[11, 12])]),
                            dict(group="charge_collection", name="wx", actions=[w("pixel", "float64", [3, 9])]), L()]))
+    # in-place versus re-assigning writers of one bucket, several models per step, under debug: the record of
+    # an earlier model must not follow what a later model does to the same buffer (and the slice of step 0
+    # must not follow what step 1 does to a buffer that survives the reset: pixel, non-destructive)
+    kinds = [("photon", "float64", 0), ("photon", "float64", 2), ("photon", "float32", 3), ("pixel", "float64", 0),
+             ("signal", "float32", 0), ("image", "uint16", 0), ("charge", "float64", 0)]
+    for b, dt, waves in kinds:
+        for n, nd, debug in ((1, False, True), (3, True, True), (3, True, False)):
+            ps = lambda base: [base + 7 * i for i in range(n)]  # noqa: E731
+            cs.append(dict(rows=1, cols=2, start=0, times=[8 * (i + 1) for i in range(n)], nondestr=nd, hier=False, debug=debug,
+                           models=[dict(group="photon_collection", name="a0", actions=[w(b, dt, ps(3), waves, "iadd", 1)]),
+                                   dict(group="charge_generation", name="a1", actions=[w(b, dt, ps(20), waves, "assign")]),
+                                   dict(group="charge_generation", name="a2", actions=[w(b, dt, ps(100), waves, "iadd", 0)]),
+                                   dict(group="charge_collection", name="a3", actions=[w(b, dt, ps(40), waves, "iset")]),
+                                   dict(group="charge_measurement", name="a4", actions=[w(b, dt, ps(60), waves, "assign")]),
+                                   dict(group="readout_electronics", name="a5", actions=[w(b, dt, ps(300), waves, "iadd", 2)]),
+                                   L()]))
+    # round-1 findings repaired in round 2, kept so that a regression is reported again: the very first model
+    # initialises a bucket with zeros (it used to be compared with zeros: not recorded) ...
+    cs.append(dict(rows=1, cols=1, start=0, times=[8, 16], nondestr=False, hier=False, debug=True,
+                   models=[dict(group="charge_measurement", name="z0", actions=[w("signal", "float64", [0, 0])]),
+                           dict(group="readout_electronics", name="wi", actions=[w("image", "uint16", [0, 4])]), L()]))
+    # a model that sets the charge back to zero: an all-zero charge is left out of a capture
+    cs.append(dict(rows=1, cols=1, start=0, times=[8, 16], nondestr=False, hier=False, debug=True,
+                   models=[dict(group="charge_generation", name="c1", actions=[w("charge", "float64", [5, 6], mode="iadd")]),
+                           dict(group="charge_collection", name="c0", actions=[w("charge", "float64", [0, 0], mode="assign")]),
+                           dict(group="charge_collection", name="wx", actions=[w("pixel", "float64", [3, 9])]), L()]))
+    # ... and the first model of a later step rewrites a bucket with the values of the previous step (it used to
+    # be compared with the end of the previous step: not recorded)
+    for nd in (False, True):
+        cs.append(dict(rows=1, cols=2, start=0, times=[8, 16, 24], nondestr=nd, hier=False, debug=True,
+                       models=[dict(group="photon_collection", name="wp", actions=[w("photon", "float64", [5, 5, 5])]),
+                               dict(group="charge_collection", name="wx", actions=[w("pixel", "float64", [3, 3, 9])]), L()]))
     return cs
+
+
+def exhaustive_cases() -> list:
+    """Thorough tier: every sequence of three writers of one container (assign / += / [...] = for each), for each
+    of the six container kinds, under debug, one readout and two non-destructive readouts."""
+    L = last_model
+    out = []
+    kinds = [("photon", "float64", 0), ("photon", "float64", 2), ("pixel", "float64", 0), ("signal", "float32", 0),
+             ("image", "uint16", 0), ("charge", "float64", 0)]
+    modes = ["assign", "iadd", "iset"]
+    for b, dt, waves in kinds:
+        for m0 in modes:
+            for m1 in modes:
+                for m2 in modes:
+                    for n, nd in ((1, False), (2, True)):
+                        ps = lambda base: [base + 11 * i for i in range(n)]  # noqa: E731
+                        w = lambda mode, base, idiom: dict(kind="write", bucket=b, dtype=dt, waves=waves, mode=mode,  # noqa: E731
+                                                           idiom=idiom, per_step=ps(base))
+                        out.append(dict(rows=1, cols=2, start=0, times=[8 * (i + 1) for i in range(n)], nondestr=nd, hier=False,
+                                        debug=True,
+                                        models=[dict(group="photon_collection", name="e0", actions=[w(m0, 3, 0)]),
+                                                dict(group="charge_generation", name="e1", actions=[w(m1, 40, 1)]),
+                                                dict(group="charge_collection", name="e2", actions=[w(m2, 500, 2)]), L()]))
+    return out
 
 
 # ------------------------------------------------------------------------------------------ Coq emission
@@ -193,7 +361,7 @@ def c_action(a) -> str:
     k = a["kind"]
     if k == "write":
         return (f"AWrite {{| w_bucket := {CB[a['bucket']]}; w_dt := {CDT[a['dtype']]}; w_waves := {core.cz(a.get('waves', 0))}; "
-                f"w_per_step := {zl(a['per_step'])} |}}")
+                f"w_mode := {CMODE[a.get('mode', 'assign')]}; w_per_step := {zl(a['per_step'])} |}}")
     if k == "data":
         return f"AData {core.cstr(a['key'])} {zl(a['per_step'])}"
     if k == "scene":
@@ -259,9 +427,9 @@ def emit_case(c, o) -> str:
 def emit_file(pairs) -> str:
     body = ";\n  ".join(emit_case(c, o) for c, o in pairs)
     return ("From Coq Require Import ZArith List String.\nFrom PyxelV Require Import Model.Result.\n"
-            "Import ListNotations.\nOpen Scope Z_scope.\n"
+            "From PyxelGen Require Import Gen_C03.\nImport ListNotations.\nOpen Scope Z_scope.\n"
             f"Definition cases : list case := [\n  {body}\n].\n"
-            "Eval vm_compute in mismatches cases.\nEval vm_compute in violations cases.\n")
+            "Eval vm_compute in mismatches src_tables cases.\nEval vm_compute in violations cases.\n")
 
 
 # ------------------------------------------------------------------------------------------ evaluation
@@ -337,12 +505,20 @@ def classify(c, o, clause: int) -> dict:
             for j, (nd, m) in enumerate(zip(inter, o["mrecs"])):
                 if node_equal(nd, m):
                     continue
-                if node_equal(nd, m, ignore_charge_values=True):
+                if node_equal(nd, m, ignore_values_of={"charge"}):
                     kinds.add("charge_values_follow_later_in_place_additions")
+                elif node_equal(nd, m, ignore_values_of=set(BUCKETS)):
+                    # same variables, shapes and image dtype, other values: which buckets?
+                    want = {b: [to_int(x) for x in a[2]] for b, a in changed(m)}
+                    off = sorted(v["name"] for v in nd["vars"] if want.get(v["name"]) != v["vals"])
+                    kinds.add("recorded_values_differ_from_what_the_model_left:" + ",".join(off))
+                    kinds.add("other")
                 elif j == first[m["step"]] and m["step"] >= 1:
                     kinds.add("first_model_of_a_later_step")
                 else:
                     kinds.add("other")
+            if kinds and "other" in kinds and len(kinds) > 1:
+                sig["detail"] = "+".join(sorted(k for k in kinds if k != "other"))
             if kinds and "other" not in kinds:
                 sig["input"] = "+".join(sorted(kinds))
     else:
@@ -355,10 +531,10 @@ def changed(m):
     return [[b, a] for b, a in m["after"] if b not in before or [to_int(x) for x in before[b][2]] != [to_int(x) for x in a[2]]]
 
 
-def node_equal(nd, m, ignore_charge_values=False) -> bool:
+def node_equal(nd, m, ignore_values_of=()) -> bool:
     """dtype is part of the comparison for the image only (a 3-D photon is widened to float64 on read-out)"""
     def norm(b, dt, shape, vals):
-        if ignore_charge_values and b == "charge":
+        if b in ignore_values_of:
             vals = []
         return [b, dt if b == "image" else "", list(shape), [to_int(x) for x in vals]]
     want = [norm(b, a[0], a[1], a[2]) for b, a in changed(m)]
@@ -373,14 +549,14 @@ def brief(o) -> dict:
     return dict(bucket_path=r["bucket_path"], children=r["children"], time=r["time"], y=r["y"], x=r["x"],
                 vars=[dict(name=v["name"], dtype=v["dtype"], dims=v["dims"], shape=v["shape"], vals=v["vals"][:24]) for v in r["vars"]],
                 inter=None if r["inter"] is None else [dict(step=n["step"], group=n["group"], name=n["name"],
-                                                             vars=[v["name"] for v in n["vars"]]) for n in r["inter"]],
+                                                             vars={v["name"]: v["vals"][:8] for v in n["vars"]}) for n in r["inter"]],
                 scene=r["scene"], data=r["data"])
 
 
 def expected_text(c, o, clause) -> str:
     if clause == 6:
         return "intermediate nodes = per model the buckets it changed: " + json.dumps(
-            [dict(step=m["step"], name=m["name"], changed=[b for b, _ in changed(m)]) for m in o["mrecs"]])
+            [dict(step=m["step"], name=m["name"], changed={b: [to_int(x) for x in a[2][:8]] for b, a in changed(m)}) for m in o["mrecs"]])
     if clause == 2:
         return ("time = start + t_i (ticks of 1/8 s) = %s; y = 0..rows-1, x = 0..cols-1; every bucket initialised in every step: one slice per "
                 "readout equal (values, dtype) to the recorder's snapshot of that step" % [c["start"] + t for t in c["times"]])
@@ -441,6 +617,17 @@ def to_violation(ctx: Ctx, c, o, clause: int, do_shrink=True) -> Violation:
                           f"nondestr={c['nondestr']} models={[m['name'] for m in c['models']]}", sig=sig)
 
 
+def generated(ctx: Ctx) -> dict:
+    """Gen_C03.v from the tree under test; the last accepted shape if the translation fails (broken obligation)."""
+    try:
+        return {"Gen_C03.v": tr.translate(ctx.repo)}
+    except core.TranslationError as ex:
+        ctx.broken.append(Broken("translation", "declarative part of the result assembly (exposure.py, to_xarray of the "
+                                 "containers, Detector.to_xarray, ModelGroup.run)", str(ex)))
+        ctx.log("translation failed:", ex)
+        return {"Gen_C03.v": tr.FALLBACK}
+
+
 def nontrivial(c) -> bool:
     return len(c["times"]) >= 2 and any(a.get("kind") == "write" for m in c["models"] for a in m["actions"])
 
@@ -448,22 +635,30 @@ def nontrivial(c) -> bool:
 def run(ctx: Ctx):
     ctx.trusted += TRUSTED
     ctx.assumptions += [
-        "strictly increasing readout times (what Readout accepts); labels on a dyadic grid",
-        "C03_slices: image initialised in no step or in every step with one unsigned dtype and values below 2^8/2^16/2^32/2^53",
-        "buckets initialised in some steps only are outside the statement (xarray NaN-fills them): recorded, not judged",
+        "labels on a dyadic grid (1/8 s); the driver uses strictly increasing readout times (what Readout accepts), the "
+        "theorems need no ordering",
+        "C03_slices: image initialised in no step or in every step with one dtype (any values)",
+        "C03_slices / C03_debug_nodes: every to_xarray copies the container's buffer (C03_readouts_copy, table in Model/Result.v)",
+        "a float bucket initialised in some steps only: judged (its slices equal the snapshots where it was initialised, all-NaN "
+        "where it was not); an integer image missing at some step goes through NaN and a cast: recorded, not judged",
         "debug: values small enough that np.allclose on integers is equality (|v| < 1e5)",
     ]
-    core.proof_leg(ctx, {}, PROP_FILE)
+    core.proof_leg(ctx, generated(ctx), PROP_FILE)
 
     r = ctx.rng("cases")
     cases = fixed_cases()
     budget = ctx.budget(160, 1200)
-    aimed = [dict(buckets=["pixel"], n=3), dict(buckets=["photon", "signal"], n=2), dict(debug=True, n=3),
+    aimed = [dict(buckets=["photon", "signal", "pixel"], n=3, partial=True), dict(buckets=["photon"], n=4, partial=True, debug=True),
+             dict(buckets=["signal", "image"], n=2, partial=True), dict(buckets=["pixel"], n=3), dict(buckets=["photon", "signal"], n=2), dict(debug=True, n=3),
              dict(debug=True, nondestr=True, n=2), dict(scene=True, hier=False), dict(data=True, n=4)]
     for f in aimed:
         cases.append(gen_case(r, f))
     while len(cases) < budget:
         cases.append(gen_case(r))
+    if not ctx.quick:
+        ex = exhaustive_cases()
+        ctx.cov["exhaustive_writer_sequences"] = len(ex)
+        cases += ex
     pairs, mism, viol = evaluate(ctx, cases)
     seen = set()
     for c, o in pairs:
@@ -480,10 +675,21 @@ def run(ctx: Ctx):
             for a in m["actions"]:
                 if a.get("kind") == "write":
                     ctx.dist("bucket_written", a["bucket"] + ("_3d" if a.get("waves") else ""))
+                    ctx.dist("write_mode", a.get("mode", "assign") + ("/debug" if c["debug"] else ""))
+                    if any(v < 0 for v in a["per_step"]):
+                        ctx.dist("initialised_in_some_steps_only", a["bucket"] + ("_3d" if a.get("waves") else ""))
                     if a["bucket"] != "image":
                         ctx.dist("float_dtype", a["dtype"])
                 elif a.get("kind") in ("data", "scene"):
                     ctx.dist("bucket_written", a["kind"])
+        per_b = {}
+        for m in c["models"]:
+            for a in m["actions"]:
+                if a.get("kind") == "write":
+                    per_b.setdefault(a["bucket"] + ("_3d" if a.get("waves") else ""), []).append(a.get("mode", "assign"))
+        for b, modes in per_b.items():
+            if len(modes) >= 2 and c["debug"]:
+                ctx.dist("debug_bucket_with_in_place_follow_up", b if any(md != "assign" for md in modes[1:]) else "none")
         ctx.dist("outcome", "raised" if o["result"] is None else "ok")
         if nontrivial(c):
             seen.add(json.dumps(c, sort_keys=True))
@@ -559,7 +765,12 @@ def replay(ctx: Ctx, rp: dict) -> int:
         print(rp.get("detail", ""))
         return 1
     core.ensure_lib(ctx, targets=core.lib_targets_of([(core.THEORIES / PROP_FILE).read_text()]))
-    (ctx.build / "gen").mkdir(parents=True, exist_ok=True)
+    gen = ctx.build / "gen"
+    gen.mkdir(parents=True, exist_ok=True)
+    nb = len(ctx.broken)
+    (gen / "Gen_C03.v").write_text(generated(ctx)["Gen_C03.v"])
+    del ctx.broken[nb:]
+    core.coqc(ctx, gen / "Gen_C03.v", [(gen, "PyxelGen")])
     pairs, mism, viol = evaluate(ctx, [case], tag="replay")
     if not pairs:
         print("the driver failed on the replayed case")
@@ -574,22 +785,24 @@ def replay(ctx: Ctx, rp: dict) -> int:
 
 META = dict(
     level_text=(
-        "Coq theorems, for ALL programs (arbitrary model functions of the step index and the detector), all strictly "
-        "increasing schedules, both layouts, debug on/off, over an executable model of the result assembly "
-        "(per-step snapshot labelled start + t_i, merge along time keyed by label, float promotion of the merge and "
-        "restoration of the image dtype, layouts, debug capture): the merge is lossless iff the labels are distinct; the "
-        "result holds exactly one slice per readout, in order, equal to the detector's state at the end of that step; the "
-        "image keeps its unsigned dtype; layouts agree; scene/data pass through; debug does not alter the result and each "
-        "non-first model's node holds exactly the buckets it changed. Two full statements are refuted with witnesses (uint64 "
-        "images above 2^53 with >= 2 readouts; debug attribution for the first model of a later step). That pyxel's code "
-        "behaves like the model is established by correspondence (testing): the DataTree returned by pyxel.run_mode for "
-        "generated writer pipelines is compared inside Coq with the model's prediction and judged against the "
-        "specification using the snapshots of a last-running recorder probe."),
+        "Coq theorems, for ALL programs (arbitrary model functions of the step index and the detector, changing containers "
+        "in place or re-assigning them), ALL schedules, both layouts, debug on/off, over an executable model of the result "
+        "assembly (per-step read-out labelled start + t_i, concatenation along time, restoration of the image dtype, "
+        "layouts, debug capture before/after each model, read-outs that copy or share the container's buffer): the "
+        "concatenation loses and invents no slice; the result holds exactly one slice per readout, in order, labelled "
+        "start + t_i and equal to the detector's state at the end of that step -- every uint64 image value included; the "
+        "image keeps its unsigned dtype; layouts agree; scene/data pass through; debug does not alter the result and the node "
+        "of EVERY model (the first of a step included) holds exactly the buckets it changed, provided every read-out copies "
+        "(proved of the table of the code; witnesses show each copy is needed). That pyxel's code behaves like the model is "
+        "established by correspondence (testing): the DataTree returned by pyxel.run_mode for generated writer pipelines "
+        "(in-place and re-assigning writers of all six container kinds, several per step) is compared inside Coq with the "
+        "model's prediction and judged against the specification using the snapshots of a last-running recorder probe and "
+        "the before/after records of every model."),
     level_note=(
-        "Trusted: Coq kernel + vm_compute; the correspondence harness, driver and probes; xarray merge / DataTree, numpy "
-        "casts and np.allclose are modelled, not verified. Time labels are integers on a 1/8 s grid and array values are "
-        "integers exactly representable in their dtype. Buckets initialised in some steps only (NaN-filled by xarray) and "
-        "the wavelength coordinate values are not judged."),
+        "Trusted: Coq kernel + vm_compute; the correspondence harness, driver and probes; xarray concat / DataTree, numpy "
+        "casts, in-place arithmetic and np.allclose are modelled, not verified. Time labels are integers on a 1/8 s grid and "
+        "array values are integers exactly representable in their dtype. Buckets initialised in some steps only (NaN-filled by "
+        "xarray) and the wavelength coordinate values are not judged."),
     technique="Coq proof over an executable result-assembly model + in-Coq correspondence/specification evaluation",
     design_ref="DESIGN.md section 6, C03",
 )
